@@ -1,13 +1,14 @@
 """C07 — paginated methods yield every item of every page exactly once, in order (DESIGN §7.7)."""
 from __future__ import annotations
-import base64, copy, json
+import base64, copy, json, os
 import apigen, genrun, libhost, rpc
 
 PKG = "acme.lib.v1"
+CORPUS = os.path.join(os.path.dirname(os.path.dirname(os.path.dirname(os.path.abspath(__file__)))), "corpus", "C07")
 INT_KINDS = ["int32", "int64", "uint32", "uint64", "sint32", "sint64", "fixed32", "fixed64", "sfixed32", "sfixed64"]
-REP_KINDS = ["message", "message", "string", "map", "enum", "other_file", "int", "bytes", "double", "nested", "map_scalar", "map_intkey"]
+REP_KINDS = ["message", "message", "string", "map", "enum", "other_file", "int", "bytes", "double", "nested", "map_scalar", "map_intkey", "map_other_file"]
 FILE_FREE_KINDS = ("string", "int", "other_file", "bytes", "double", "map_scalar")      # need nothing of lib.proto
-MAP_KINDS = ("map", "map_scalar", "map_intkey")
+MAP_KINDS = ("map", "map_scalar", "map_intkey", "map_other_file")
 
 
 def gen_shape(r: apigen.Rng, idx: int, conforming=None, force=None, first_kind=None):
@@ -85,16 +86,60 @@ def add_size(msg, x, color=None, optional=False):
         msg.field(n, t, optional=optional)
 
 
+SUB = PKG + ".keepers"
+LAYOUTS = ("svc_sub", "two_svc", "msgs_sub")
+# proto SUB-PACKAGE layouts (per-service templates are rendered with a sub-package VIEW of the API):
+#   svc_sub : every service in a file of acme.lib.v1.keepers, all messages in the API package
+#   two_svc : service Library (+ its messages) in the API package, service Keeper (+ its request/response messages) in the sub-package;
+#             Keeper's items come from the API package and from the third file
+#   msgs_sub: the service in the API package, its request/response/item messages in the sub-package, SharedItem in a third file
+#             (of the same sub-package, or of a second sub-package acme.lib.v1.common: shapes[0]["third"])
+# References between the proto packages of one API go one way only (a cycle root <-> sub is C02's package-level-import-cycle finding).
+
+
+def service_full(s):
+    lay = s.get("layout")
+    if lay == "svc_sub":
+        return SUB + ".Library"
+    if lay == "two_svc" and s.get("svc") == "Keeper":
+        return SUB + ".Keeper"
+    return PKG + ".Library"
+
+
 def build_api(shapes):
-    f2 = apigen.File("acme/lib/v1/shared.proto", PKG, deps=[])
+    layout = shapes[0].get("layout") if shapes else None
+    third = shapes[0].get("third", "same") if shapes else "same"
+    if layout == "msgs_sub":
+        tpkg, tdir = (PKG + ".common", "acme/lib/v1/common") if third == "common" else (SUB, "acme/lib/v1/keepers")
+    else:
+        tpkg, tdir = PKG, "acme/lib/v1"
+    f2 = apigen.File(f"{tdir}/shared.proto", tpkg, deps=[])
     other = f2.msg("SharedItem"); other.field("id"); other.field("rank", "int32")
-    f = apigen.File("acme/lib/v1/lib.proto", PKG).dep("acme/lib/v1/shared.proto")
-    color = f.enum("Color", ["COLOR_UNSPECIFIED", "RED", "BLUE"])
-    book = f.msg("Book"); book.field("name"); book.field("pages", "int32")
-    svc = f.service("Library")
+    if layout == "msgs_sub":
+        ft = apigen.File("acme/lib/v1/keepers/types.proto", SUB).dep(f2.name)            # messages
+        f = apigen.File("acme/lib/v1/lib.proto", PKG).dep(f2.name, ft.name)               # the service
+        files = [f2, ft, f]
+    else:
+        f = ft = apigen.File("acme/lib/v1/lib.proto", PKG).dep(f2.name)
+        files = [f2, f]
+    color = ft.enum("Color", ["COLOR_UNSPECIFIED", "RED", "BLUE"])
+    book = ft.msg("Book"); book.field("name"); book.field("pages", "int32")
+    fk = None
+    if layout in ("svc_sub", "two_svc"):
+        fk = apigen.File("acme/lib/v1/keepers/service.proto", SUB).dep(f2.name, f.name)
+        files.append(fk)
+    svcs = {}
+
+    def service_of(s):
+        full = service_full(s)
+        if full not in svcs:
+            svcs[full] = (fk if full.startswith(SUB + ".") else f).service(full.rsplit(".", 1)[1])
+        return svcs[full]
     for s in shapes:
         opt = s.get("opt", [])
-        rq = f.msg(s["name"] + "Request")
+        fm = fk if (layout == "two_svc" and s.get("svc") == "Keeper") else ft      # where this method's request/response live
+        svc = service_of(s)
+        rq = fm.msg(s["name"] + "Request")
         if s["extra_req"]:
             rq.field("parent"); rq.field("filter")
         if s.get("oneof_token"):
@@ -105,36 +150,75 @@ def build_api(shapes):
         elif s["page_token"]: rq.field("page_token", s["page_token"])
         for x in (s["size"], s["size2"]):
             if x: add_size(rq, x, color, "size" in opt)
-        rs = (f2 if s.get("resp_other_file") else f).msg(s["name"] + "Response")
+        rs = (f2 if s.get("resp_other_file") else fm).msg(s["name"] + "Response")
         decl = []      # (declare) thunks in declaration order; numbers descending when `renumber`
         if s["lead"]:
-            decl.append(lambda n: rs.field("total", "int32", number=n))
+            decl.append(lambda n, rs=rs: rs.field("total", "int32", number=n))
         for k, kind in enumerate(s["repeated"]):
             fn = f"results{k}"
-            if kind == "message": decl.append(lambda n, fn=fn: rs.field(fn, "message", number=n, repeated=True, type_name=book))
-            elif kind == "string": decl.append(lambda n, fn=fn: rs.field(fn, "string", number=n, repeated=True))
-            elif kind == "int": decl.append(lambda n, fn=fn: rs.field(fn, "int64", number=n, repeated=True))
-            elif kind == "bytes": decl.append(lambda n, fn=fn: rs.field(fn, "bytes", number=n, repeated=True))
-            elif kind == "double": decl.append(lambda n, fn=fn: rs.field(fn, "double", number=n, repeated=True))
-            elif kind == "enum": decl.append(lambda n, fn=fn: rs.field(fn, "enum", number=n, repeated=True, type_name=color))
-            elif kind == "other_file": decl.append(lambda n, fn=fn: rs.field(fn, "message", number=n, repeated=True, type_name=".acme.lib.v1.SharedItem"))
+            if kind == "message": decl.append(lambda n, fn=fn, rs=rs: rs.field(fn, "message", number=n, repeated=True, type_name=book))
+            elif kind == "string": decl.append(lambda n, fn=fn, rs=rs: rs.field(fn, "string", number=n, repeated=True))
+            elif kind == "int": decl.append(lambda n, fn=fn, rs=rs: rs.field(fn, "int64", number=n, repeated=True))
+            elif kind == "bytes": decl.append(lambda n, fn=fn, rs=rs: rs.field(fn, "bytes", number=n, repeated=True))
+            elif kind == "double": decl.append(lambda n, fn=fn, rs=rs: rs.field(fn, "double", number=n, repeated=True))
+            elif kind == "enum": decl.append(lambda n, fn=fn, rs=rs: rs.field(fn, "enum", number=n, repeated=True, type_name=color))
+            elif kind == "other_file": decl.append(lambda n, fn=fn, rs=rs: rs.field(fn, "message", number=n, repeated=True, type_name=other))
             elif kind == "nested":
-                def mk(n, fn=fn, k=k):
+                def mk(n, fn=fn, k=k, rs=rs):
                     row = rs.nested(f"Row{k}"); row.field("name"); row.field("pages", "int32")
                     rs.field(fn, "message", number=n, repeated=True, type_name=row)
                 decl.append(mk)
-            elif kind == "map": decl.append(lambda n, fn=fn: rs.map_field(fn, "string", "message", number=n, vtype_name=book))
-            elif kind == "map_scalar": decl.append(lambda n, fn=fn: rs.map_field(fn, "string", "int32", number=n))
-            elif kind == "map_intkey": decl.append(lambda n, fn=fn: rs.map_field(fn, "int32", "message", number=n, vtype_name=book))
-        if s["next_page_token"] == "str": decl.append(lambda n: rs.field("next_page_token", number=n, optional="next" in opt))
-        elif s["next_page_token"] == "repeated_str": decl.append(lambda n: rs.field("next_page_token", number=n, repeated=True))
-        elif s["next_page_token"]: decl.append(lambda n: rs.field("next_page_token", s["next_page_token"], number=n))
+            elif kind == "map": decl.append(lambda n, fn=fn, rs=rs: rs.map_field(fn, "string", "message", number=n, vtype_name=book))
+            elif kind == "map_scalar": decl.append(lambda n, fn=fn, rs=rs: rs.map_field(fn, "string", "int32", number=n))
+            elif kind == "map_intkey": decl.append(lambda n, fn=fn, rs=rs: rs.map_field(fn, "int32", "message", number=n, vtype_name=book))
+            elif kind == "map_other_file": decl.append(lambda n, fn=fn, rs=rs: rs.map_field(fn, "string", "message", number=n, vtype_name=other))
+        if s["next_page_token"] == "str": decl.append(lambda n, rs=rs: rs.field("next_page_token", number=n, optional="next" in opt))
+        elif s["next_page_token"] == "repeated_str": decl.append(lambda n, rs=rs: rs.field("next_page_token", number=n, repeated=True))
+        elif s["next_page_token"]: decl.append(lambda n, rs=rs, s=s: rs.field("next_page_token", s["next_page_token"], number=n))
         for j, th in enumerate(decl):
             th(len(decl) - j if s.get("renumber") else j + 1)
         st = s.get("stream")
         svc.method(s["name"], rq, rs, http=None if st else ("get", "/v1/lists/" + s["name"].lower()),     # every request field travels in the query over REST
                    sigs=["parent,filter"] if s.get("sig") else (), ss=st in ("ss", "bidi"), cs=st in ("cs", "bidi"))
-    return [f2, f]
+    return files
+
+
+def map_value_foreign(s):
+    """the item field is a map whose VALUE message is declared in another file than the request and the response
+    (finding pagers-import:map-value-type-from-other-module: pagers.py names the value type's module without importing it)"""
+    if not s["repeated"]:
+        return False
+    k = s["repeated"][0]
+    if k == "map_other_file":
+        return not s.get("resp_other_file")
+    if k in ("map", "map_intkey"):       # Book lives where the messages live, except for the sub-package service of `two_svc`
+        return s.get("layout") == "two_svc" and s.get("svc") == "Keeper"
+    return False
+
+
+def avoid_known(shapes):
+    """regular shares stay clear of the recorded finding (its own corpus case runs on every run), so that their sessions run"""
+    for s in shapes:
+        if map_value_foreign(s):
+            s["repeated"][0] = "map_scalar"
+    return shapes
+
+
+def with_layout(r, shapes, layout):
+    """put an API's shapes into one of the sub-package layouts"""
+    third = r.pick(["same", "common"])
+    for k, s in enumerate(shapes):
+        s["layout"] = layout
+        if layout == "msgs_sub":
+            s["third"] = third
+        if layout == "two_svc":
+            s["svc"] = "Library" if k % 2 == 0 else "Keeper"
+    if layout == "two_svc":           # both services paged: the first shape of each is conforming
+        for k in (0, 1):
+            if k < len(shapes) and shapes[k].get("mutation"):
+                keep = {kk: shapes[k][kk] for kk in ("name", "layout", "svc")}
+                shapes[k] = dict(gen_shape(r, k, conforming=True), **keep)
+    return avoid_known(shapes)
 
 
 def ftype(field):
@@ -178,6 +262,8 @@ def page_json(s, page, field0, kind):
         d[field0] = {(f"k{i}" if kind == "map" else str(i)): {"name": f"b{i}", "pages": i} for i in page["ids"]}
     elif kind == "map_scalar":
         d[field0] = {f"k{i}": i for i in page["ids"]}
+    elif kind == "map_other_file":
+        d[field0] = {f"k{i}": {"id": f"s{i}", "rank": i} for i in page["ids"]}
     else:
         d[field0] = [item_json(kind, i) for i in page["ids"]]
     if page["token"]:
@@ -195,13 +281,13 @@ def item_id(kind, canon, codec):
         v = canon["value"]
         if v.get("kind") == "scalar":
             return int(v["value"])
-        return int(codec.decode("acme.lib.v1.Book", v["b64"]).get("pages", 0))
+        return int(codec.decode(v["type"], v["b64"]).get("rank" if kind == "map_other_file" else "pages", 0))
     if kind in ("message",):
-        return int(codec.decode("acme.lib.v1.Book", canon["b64"]).get("pages", 0))
+        return int(codec.decode(canon["type"], canon["b64"]).get("pages", 0))
     if kind == "nested":
         return int(codec.decode(canon["type"], canon["b64"]).get("pages", 0))
     if kind == "other_file":
-        return int(codec.decode("acme.lib.v1.SharedItem", canon["b64"]).get("rank", 0))
+        return int(codec.decode(canon["type"], canon["b64"]).get("rank", 0))
     if kind == "string": return int(canon["value"][1:])
     if kind == "int": return int(canon["value"])
     if kind == "bytes": return int(base64.b64decode(canon["b64"])[1:])
@@ -278,10 +364,34 @@ def run_api(ctx, r, shapes, label, programs=None):
     files = build_api(shapes)
     req = apigen.request(files, "transport=grpc+rest,autogen-snippets=false")
     api, _ = genrun.build_api(req)
-    svc = api.services[f"{PKG}.Library"]
-    loc = rpc.py_locations(api, svc)
     codec = rpc.Codec(files)
-    import gapic.utils as gu
+    layout = shapes[0].get("layout") if shapes else None
+    ctx.count("layout", layout or "one package")
+    groups = []       # one entry per service: (full proto name of the service, its shapes)
+    for s in shapes:
+        full = service_full(s)
+        if not any(g[0] == full for g in groups):
+            groups.append((full, []))
+        next(g for g in groups if g[0] == full)[1].append(s)
+    classified = [classify_service(ctx, api.services[full], sub) for full, sub in groups]
+    # ---- T3
+    res, err = genrun.try_generate(req)
+    if err:
+        paged = [s for c in classified for s in c[2]]
+        enum_paged = [s for s in paged if s["repeated"][0] == "enum"]
+        key = "generation-crash:" + err[0] + (":sub-package-layout:" + layout if layout else "")
+        ctx.fail(key, f"generator raised {err[0]}: {err[1]}",
+                 {"shapes": enum_paged[:1] or shapes, "shape": (enum_paged[:1] or shapes)[0]})
+        return
+    root = genrun.materialise(res)
+    try:
+        for (full, sub), (model, wmodel, paged, unary) in zip(groups, classified):
+            t3_service(ctx, r, api, codec, root, api.services[full], full, sub, model, wmodel, paged, unary, programs, shapes)
+    finally:
+        genrun.cleanup(root)
+
+
+def classify_service(ctx, svc, shapes):
     # ---- T2 + classification oracle
     ops = []
     for s in shapes:
@@ -319,239 +429,247 @@ def run_api(ctx, r, shapes, label, programs=None):
             unary.append((s, wm, want))
             if impl and want is not False:
                 paged.append(s)
-    # ---- T3
-    res, err = genrun.try_generate(req)
-    if err:
-        enum_paged = [s for s in paged if s["repeated"][0] == "enum"]
-        ctx.fail("generation-crash:" + err[0], f"generator raised {err[0]}: {err[1]}",
-                 {"shapes": enum_paged[:1] or shapes, "shape": (enum_paged[:1] or shapes)[0]})
-        return
-    root = genrun.materialise(res)
-    try:
-        sessions = []
-        plans = []
-        for s in paged:
-            m = svc.methods[s["name"]]
-            kind = s["repeated"][0]
-            for h in range(ctx.n(2, 6)):
-                hist = gen_history(r, kind)
-                if programs and h == 0:
-                    hist = copy.deepcopy(programs[0])
-                reqd = {}
-                if s["extra_req"]:
-                    reqd = {"parent": "shelves/s1", "filter": "a=b"}
-                if r.maybe(0.3):
-                    reqd["page_token"] = "start"
-                path = f"/{PKG}.Library/{s['name']}"
-                modes = ["request-instance", "request-dict"]
-                if s.get("sig") and "page_token" not in reqd:
-                    modes.append("kwargs")
-                if not reqd:
-                    modes.append("request-none")
-                live = live_pages(hist)
-                script = [{"replies": [codec.encode_b64(m.output.ident.proto, page_json(s, p, "results0", kind))]} for p in hist]
-                kwargs = {"timeout": 7.0, "metadata": METADATA}
-                fail_at = None
-                if len(live) >= 2 and r.maybe(0.4):
-                    # call options: the caller's retry must reach the fetches of the PAGER: one transient error before page `fail_at`
-                    fail_at = r.randint(1, len(live) - 1)
-                    script.insert(fail_at, {"code": "UNAVAILABLE", "tag": "fail"})
-                    kwargs["retry"] = dict(RETRY)
-                call = {"method": gu.to_snake_case(m.client_method_name),
-                        "mode": r.pick(modes),
-                        "py_request": rpc.py_type(m.input),
-                        "request_b64": codec.encode_b64(m.input.ident.proto, reqd),
-                        "kwargs": [["parent", "parent"], ["filter", "filter"]],
-                        "consume": "pager",
-                        "again_same_args": True,      # programs: the caller lists twice with the same request object
-                        "call_kwargs": kwargs,
-                        "script": {path: script}}
-                prog = copy.deepcopy(programs[1]) if (programs and h == 0) else gen_program(r, hist, long=ctx.n(0, 1) == 1)
-                plans.append((s, m, kind, hist, reqd, call, fail_at, prog))
-        for asy in (False, True):
-            calls = []
-            for (s, m, kind, hist, reqd, call, fail_at, prog) in plans:
-                c = copy.deepcopy(call)
-                if "retry" in c["call_kwargs"]:
-                    c["call_kwargs"]["retry"]["async"] = asy
-                calls.append(c)
-            sessions.append({"op": "grpc_session", "client": loc["async_client" if asy else "client"], "trap_sleep": True,
-                             "transport": loc["grpc_asyncio" if asy else "grpc"], "async": asy, "calls": calls})
-        # the same listings through the REST transport (sync client): pages are JSON bodies, tokens travel in the query
-        rest_calls = []
+    return model, wmodel, paged, unary
+
+
+def session_failed(ctx, label, sess, shapes):
+    """a session that could not even start: the emitted package does not import"""
+    text = str(sess)
+    foreign = [s for s in shapes if map_value_foreign(s) and statement_paged(s)]
+    if foreign and "pagers.py" in text + str(ctx.__dict__.get("_c07_first_failure", "")) and ("NameError" in text or "partially initialized" in text):
+        ctx.__dict__.setdefault("_c07_first_failure", text)
+        ctx.fail("pagers-import:map-value-type-from-other-module",
+                 f"the emitted package does not import ({label}): pagers.py annotates the map pager with the value type's module without importing it: "
+                 f"{text[-300:]}", {"whole_api": True, "shapes": shapes, "shape": foreign[0]})
+    else:
+        ctx.fail("session-failed", f"T3 session failed ({label}): {text[-400:]}", {"whole_api": True, "shapes": shapes})
+
+
+def t3_service(ctx, r, api, codec, root, svc, svc_full, shapes, model, wmodel, paged, unary, programs, all_shapes):
+    import gapic.utils as gu
+    loc = rpc.py_locations(api, svc)
+    sessions = []
+    plans = []
+    for s in paged:
+        m = svc.methods[s["name"]]
+        kind = s["repeated"][0]
+        for h in range(ctx.n(2, 6)):
+            hist = gen_history(r, kind)
+            if programs and h == 0:
+                hist = copy.deepcopy(programs[0])
+            reqd = {}
+            if s["extra_req"]:
+                reqd = {"parent": "shelves/s1", "filter": "a=b"}
+            if r.maybe(0.3):
+                reqd["page_token"] = "start"
+            path = f"/{svc_full}/{s['name']}"
+            modes = ["request-instance", "request-dict"]
+            if s.get("sig") and "page_token" not in reqd:
+                modes.append("kwargs")
+            if not reqd:
+                modes.append("request-none")
+            live = live_pages(hist)
+            script = [{"replies": [codec.encode_b64(m.output.ident.proto, page_json(s, p, "results0", kind))]} for p in hist]
+            kwargs = {"timeout": 7.0, "metadata": METADATA}
+            fail_at = None
+            if len(live) >= 2 and r.maybe(0.4):
+                # call options: the caller's retry must reach the fetches of the PAGER: one transient error before page `fail_at`
+                fail_at = r.randint(1, len(live) - 1)
+                script.insert(fail_at, {"code": "UNAVAILABLE", "tag": "fail"})
+                kwargs["retry"] = dict(RETRY)
+            call = {"method": gu.to_snake_case(m.client_method_name),
+                    "mode": r.pick(modes),
+                    "py_request": rpc.py_type(m.input),
+                    "request_b64": codec.encode_b64(m.input.ident.proto, reqd),
+                    "kwargs": [["parent", "parent"], ["filter", "filter"]],
+                    "consume": "pager",
+                    "again_same_args": True,      # programs: the caller lists twice with the same request object
+                    "call_kwargs": kwargs,
+                    "script": {path: script}}
+            prog = copy.deepcopy(programs[1]) if (programs and h == 0) else gen_program(r, hist, long=ctx.n(0, 1) == 1)
+            plans.append((s, m, kind, hist, reqd, call, fail_at, prog))
+    for asy in (False, True):
+        calls = []
         for (s, m, kind, hist, reqd, call, fail_at, prog) in plans:
-            c = {k: v for k, v in call.items() if k not in ("script", "again_same_args")}
-            c["call_kwargs"] = {"timeout": 7.0, "metadata": [["x-verif", "1"]]}
-            c["script"] = [{"status": 200, "body": json.dumps(page_json(s, p, "results0", kind))} for p in hist]
-            rest_calls.append(c)
-        sessions.append({"op": "rest_session", "client": loc["client"], "transport": loc["rest"], "calls": rest_calls})
-        # pagers as objects (programs) + what every unary method returns (exposure), sync and asyncio
-        obj_calls = []
-        for (s, m, kind, hist, reqd, call, fail_at, prog) in plans:
-            c = {k: v for k, v in call.items() if k not in ("again_same_args", "consume")}
-            c["call_kwargs"] = {"timeout": 7.0, "metadata": METADATA}
-            c["mode"] = "request-instance"
-            c["script"] = {f"/{PKG}.Library/{s['name']}": [{"replies": [codec.encode_b64(m.output.ident.proto, page_json(s, p, "results0", kind))]} for p in hist]}
-            c["program"] = prog
-            obj_calls.append(("program", s, m, kind, hist, reqd, prog, c))
-        for (s, wm, want) in unary:
+            c = copy.deepcopy(call)
+            if "retry" in c["call_kwargs"]:
+                c["call_kwargs"]["retry"]["async"] = asy
+            calls.append(c)
+        sessions.append({"op": "grpc_session", "client": loc["async_client" if asy else "client"], "trap_sleep": True,
+                         "transport": loc["grpc_asyncio" if asy else "grpc"], "async": asy, "calls": calls})
+    # the same listings through the REST transport (sync client): pages are JSON bodies, tokens travel in the query
+    rest_calls = []
+    for (s, m, kind, hist, reqd, call, fail_at, prog) in plans:
+        c = {k: v for k, v in call.items() if k not in ("script", "again_same_args")}
+        c["call_kwargs"] = {"timeout": 7.0, "metadata": [["x-verif", "1"]]}
+        c["script"] = [{"status": 200, "body": json.dumps(page_json(s, p, "results0", kind))} for p in hist]
+        rest_calls.append(c)
+    sessions.append({"op": "rest_session", "client": loc["client"], "transport": loc["rest"], "calls": rest_calls})
+    # pagers as objects (programs) + what every unary method returns (exposure), sync and asyncio
+    obj_calls = []
+    for (s, m, kind, hist, reqd, call, fail_at, prog) in plans:
+        c = {k: v for k, v in call.items() if k not in ("again_same_args", "consume")}
+        c["call_kwargs"] = {"timeout": 7.0, "metadata": METADATA}
+        c["mode"] = "request-instance"
+        c["script"] = {f"/{svc_full}/{s['name']}": [{"replies": [codec.encode_b64(m.output.ident.proto, page_json(s, p, "results0", kind))]} for p in hist]}
+        c["program"] = prog
+        obj_calls.append(("program", s, m, kind, hist, reqd, prog, c))
+    for (s, wm, want) in unary:
+        m = svc.methods[s["name"]]
+        c = {"method": gu.to_snake_case(m.client_method_name), "mode": "request-instance", "py_request": rpc.py_type(m.input),
+             "request_b64": codec.encode_b64(m.input.ident.proto, {}), "program": [],
+             "script": {f"/{svc_full}/{s['name']}": [{"replies": [""]}]}}
+        obj_calls.append(("exposure", s, m, wm, want, None, None, c))
+    stream_calls = []
+    for s, mo, wm in zip(shapes, model, wmodel):
+        if s.get("stream") and mo.get("field") is not None:
             m = svc.methods[s["name"]]
             c = {"method": gu.to_snake_case(m.client_method_name), "mode": "request-instance", "py_request": rpc.py_type(m.input),
-                 "request_b64": codec.encode_b64(m.input.ident.proto, {}), "program": [],
-                 "script": {f"/{PKG}.Library/{s['name']}": [{"replies": [""]}]}}
-            obj_calls.append(("exposure", s, m, wm, want, None, None, c))
-        stream_calls = []
-        for s, mo, wm in zip(shapes, model, wmodel):
-            if s.get("stream") and mo.get("field") is not None:
-                m = svc.methods[s["name"]]
-                c = {"method": gu.to_snake_case(m.client_method_name), "mode": "request-instance", "py_request": rpc.py_type(m.input),
-                     "request_b64": codec.encode_b64(m.input.ident.proto, {}), "program": [["iter"], ["next", 0]],
-                     "script": {f"/{PKG}.Library/{s['name']}": [{"replies": [codec.encode_b64(m.output.ident.proto, {"next_page_token": "t"})]}]}}
-                if m.client_streaming:
-                    c["stream_requests"] = [codec.encode_b64(m.input.ident.proto, {})]
-                stream_calls.append((s, m, wm, c))
-        for asy in (False, True):
-            sessions.append({"op": "c07_session", "client": loc["async_client" if asy else "client"], "async": asy,
-                             "transport": loc["grpc_asyncio" if asy else "grpc"],
-                             "calls": [x[-1] for x in obj_calls] + ([x[-1] for x in stream_calls] if not asy else [])})
-        out = libhost.run(root, sessions, timeout=900)
-        rest_out = out[2] if len(out) > 2 else None
-        obj_out = out[3:5]
-        out = out[:2]
-        mops = [{"op": "c07.run", "token0": reqd.get("page_token", ""),
-                 "pages": [{"items": [i if isinstance(i, int) else 0 for i in p["ids"]], "token": p["token"]} for p in hist]}
-                for (s, m, kind, hist, reqd, call, fail_at, prog) in plans]
-        mres = ctx.driver.ask(mops)
-        for asy, sess in zip((False, True), out):
-            if "calls" not in sess:
-                ctx.fail("session-failed", f"T3 session failed ({'async' if asy else 'sync'}): {str(sess)[-400:]}", {"shapes": shapes})
+                 "request_b64": codec.encode_b64(m.input.ident.proto, {}), "program": [["iter"], ["next", 0]],
+                 "script": {f"/{svc_full}/{s['name']}": [{"replies": [codec.encode_b64(m.output.ident.proto, {"next_page_token": "t"})]}]}}
+            if m.client_streaming:
+                c["stream_requests"] = [codec.encode_b64(m.input.ident.proto, {})]
+            stream_calls.append((s, m, wm, c))
+    for asy in (False, True):
+        sessions.append({"op": "c07_session", "client": loc["async_client" if asy else "client"], "async": asy,
+                         "transport": loc["grpc_asyncio" if asy else "grpc"],
+                         "calls": [x[-1] for x in obj_calls] + ([x[-1] for x in stream_calls] if not asy else [])})
+    out = libhost.run(root, sessions, timeout=900)
+    rest_out = out[2] if len(out) > 2 else None
+    obj_out = out[3:5]
+    out = out[:2]
+    mops = [{"op": "c07.run", "token0": reqd.get("page_token", ""),
+             "pages": [{"items": [i if isinstance(i, int) else 0 for i in p["ids"]], "token": p["token"]} for p in hist]}
+            for (s, m, kind, hist, reqd, call, fail_at, prog) in plans]
+    mres = ctx.driver.ask(mops)
+    for asy, sess in zip((False, True), out):
+        if "calls" not in sess:
+            session_failed(ctx, 'async' if asy else 'sync', sess, all_shapes)
+            continue
+        for (s, m, kind, hist, reqd, call, fail_at, prog), res_, mo in zip(plans, sess["calls"], mres):
+            payload = {"shape": s, "history": hist, "request": reqd, "async": asy, "mode": call["mode"], "fail_at": fail_at}
+            ctx.case({"history": [(len(p["ids"]), bool(p["token"])) for p in hist], "item_kind": kind, "async": asy},
+                     distinct_key=["hist", s["name"], json.dumps(hist), asy])
+            ctx.count("history_pages", len(hist)); ctx.count("item_kind", kind); ctx.count("call_mode", call["mode"])
+            if fail_at is not None:
+                ctx.count("program", "transient error on a page the pager fetches, caller passed retry=")
+            if "ok" not in res_:
+                if fail_at is not None and res_.get("raised") == "ServiceUnavailable":
+                    ctx.fail("call-options-changed", f"{m.name}: the caller's retry= did not reach the fetch of page {fail_at + 1}: "
+                             f"{res_.get('raised')}: {res_.get('msg')}", payload)
+                else:
+                    ctx.fail("pager-raised", f"{m.name}: {res_.get('raised')}: {res_.get('msg')}", payload)
                 continue
-            for (s, m, kind, hist, reqd, call, fail_at, prog), res_, mo in zip(plans, sess["calls"], mres):
-                payload = {"shape": s, "history": hist, "request": reqd, "async": asy, "mode": call["mode"], "fail_at": fail_at}
-                ctx.case({"history": [(len(p["ids"]), bool(p["token"])) for p in hist], "item_kind": kind, "async": asy},
-                         distinct_key=["hist", s["name"], json.dumps(hist), asy])
-                ctx.count("history_pages", len(hist)); ctx.count("item_kind", kind); ctx.count("call_mode", call["mode"])
-                if fail_at is not None:
-                    ctx.count("program", "transient error on a page the pager fetches, caller passed retry=")
+            ok = res_["ok"]
+            # expected by the statement
+            live = live_pages(hist)
+            want_ids = [i for p in live for i in p["ids"]]
+            got = [item_id(kind, it, codec) for it in ok["items"]]
+            if kind == "enum":
+                want_cmp = [["RED", "BLUE"][i % 2] for i in want_ids]
+                got_cmp = [enum_name(g) for g in got]
+            elif kind in MAP_KINDS:
+                # order inside one page's map is the map's own; compare page by page as sets, pages in order
+                want_cmp, got_cmp, k = [], [], 0
+                for p in live:
+                    want_cmp.append(sorted(p["ids"])); got_cmp.append(sorted(got[k:k + len(p["ids"])])); k += len(p["ids"])
+                got_cmp.append(got[k:]); want_cmp.append([])
+            else:
+                want_cmp, got_cmp = want_ids, got
+            if want_cmp != got_cmp:
+                ctx.fail("items", f"{m.name}: yielded {got} expected {want_ids}", payload)
+            srv_all = [x for x in res_["server"] if x["path"].endswith("/" + s["name"])]
+            srv = [x for x in srv_all if x.get("behaviour") != "fail"]
+            if len(srv) != len(live) or len(srv_all) - len(srv) != (0 if fail_at is None else 1):
+                ctx.fail("call-count", f"{m.name}: {len(srv)} answered (+{len(srv_all) - len(srv)} failed) server calls for {len(live)} pages", payload)
+            toks = []
+            for k, rec in enumerate(srv_all):
+                d = codec.decode(m.input.ident.proto, rec["requests"][0]) if rec["requests"] else {}
+                if rec.get("behaviour") != "fail":
+                    toks.append(d.get("page_token", ""))
+                rest = {kk: vv for kk, vv in d.items() if kk != "page_token"}
+                want_rest = {kk: vv for kk, vv in reqd.items() if kk != "page_token"}
+                if rest != want_rest:
+                    ctx.fail("request-fields-changed", f"{m.name}: request {k} carries {rest}, caller gave {want_rest}", payload)
+                for key_ in ("x-verif", "x-verif-b"):
+                    if [b for a, b in rec["metadata"] if a == key_] != [b for a, b in METADATA if a == key_]:
+                        ctx.fail("call-options-changed", f"{m.name}: request {k} carries metadata {key_}={[b for a, b in rec['metadata'] if a == key_]}, "
+                                 f"caller gave {[b for a, b in METADATA if a == key_]}", payload)
+                if not (0 < rec["time_remaining"] <= 7.5):
+                    ctx.fail("call-options-changed", f"{m.name}: request {k} deadline {rec['time_remaining']} (timeout=7)", payload)
+            want_toks = [reqd.get("page_token", "")] + [p["token"] for p in live[:-1]]
+            if toks != want_toks:
+                ctx.fail("tokens", f"{m.name}: tokens sent {toks} expected {want_toks}", payload)
+            if ok["attrs"].get("next_page_token") != live[-1]["token"]:
+                ctx.fail("attrs", f"{m.name}: pager.next_page_token={ok['attrs'].get('next_page_token')!r} after iteration, last page token {live[-1]['token']!r}", payload)
+            last = ok.get("last") or {}
+            if last.get("b64") is not None and codec.decode(m.output.ident.proto, last["b64"]) != codec.normal(m.output.ident.proto, page_json(s, live[-1], "results0", kind)):
+                ctx.fail("attrs", f"{m.name}: the response the pager exposes after iteration is not the last page fetched", payload)
+            if ok.get("pytype") != m.name + ("AsyncPager" if asy else "Pager"):
+                ctx.fail("exposure", f"{m.name}: the client returned a {ok.get('pytype')}", payload)
+            # a second listing with the very same argument objects is a listing like the first one
+            ag = res_.get("again")
+            if ag is not None:
+                ctx.count("program", "second listing with the same request object (" + call["mode"] + ")")
+                if "ok" not in ag:
+                    ctx.fail("second-listing-raised", f"{m.name}: second listing with the same arguments: {ag.get('raised')}: {ag.get('msg')}", payload)
+                else:
+                    got2 = [item_id(kind, it, codec) for it in ag["ok"]["items"]]
+                    srv2 = [x for x in ag["server"] if x["path"].endswith("/" + s["name"]) and x.get("behaviour") != "fail"]
+                    toks2 = [(codec.decode(m.input.ident.proto, rec["requests"][0]) if rec["requests"] else {}).get("page_token", "") for rec in srv2]
+                    if sorted(map(str, got2)) != sorted(map(str, got)) or toks2 != toks:
+                        ctx.fail("second-listing-differs", f"{m.name}: listing again with the same request object yielded {got2} (tokens sent {toks2}); "
+                                 f"the first listing yielded {got} (tokens {toks})", payload)
+            # ---- correspondence with the model
+            ctx.traces += 1
+            if kind not in ("enum",):
+                m_items = mo["items"]
+                g_items = got if kind not in MAP_KINDS else None
+                if g_items is not None and m_items != g_items:
+                    ctx.disagree("T3:c07.items", f"model {m_items} vs impl {g_items}", payload)
+            if mo["request_tokens"] != toks:
+                ctx.disagree("T3:c07.tokens", f"model {mo['request_tokens']} vs impl {toks}", payload)
+    # ---- pagers as objects: programs (small-step model) + exposure
+    check_objects(ctx, codec, svc, obj_calls, stream_calls, obj_out, shapes)
+    # ---- REST: items, call count, tokens and the other request fields, against the statement
+    if rest_out is not None:
+        import urllib.parse
+        if "calls" not in rest_out:
+            session_failed(ctx, "rest", rest_out, all_shapes)
+        else:
+            for (s, m, kind, hist, reqd, call, fail_at, prog), res_ in zip(plans, rest_out["calls"]):
+                payload = {"shape": s, "history": hist, "request": reqd, "async": False, "transport": "rest", "mode": call["mode"]}
+                ctx.count("transport", "rest")
                 if "ok" not in res_:
-                    if fail_at is not None and res_.get("raised") == "ServiceUnavailable":
-                        ctx.fail("call-options-changed", f"{m.name}: the caller's retry= did not reach the fetch of page {fail_at + 1}: "
-                                 f"{res_.get('raised')}: {res_.get('msg')}", payload)
-                    else:
-                        ctx.fail("pager-raised", f"{m.name}: {res_.get('raised')}: {res_.get('msg')}", payload)
+                    ctx.fail("pager-raised", f"{m.name} (rest): {res_.get('raised')}: {res_.get('msg')}", payload)
                     continue
-                ok = res_["ok"]
-                # expected by the statement
                 live = live_pages(hist)
                 want_ids = [i for p in live for i in p["ids"]]
-                got = [item_id(kind, it, codec) for it in ok["items"]]
+                got = [item_id(kind, it, codec) for it in res_["ok"]["items"]]
                 if kind == "enum":
-                    want_cmp = [["RED", "BLUE"][i % 2] for i in want_ids]
-                    got_cmp = [enum_name(g) for g in got]
+                    ok_items = [enum_name(g) for g in got] == [["RED", "BLUE"][i % 2] for i in want_ids]
                 elif kind in MAP_KINDS:
-                    # order inside one page's map is the map's own; compare page by page as sets, pages in order
-                    want_cmp, got_cmp, k = [], [], 0
-                    for p in live:
-                        want_cmp.append(sorted(p["ids"])); got_cmp.append(sorted(got[k:k + len(p["ids"])])); k += len(p["ids"])
-                    got_cmp.append(got[k:]); want_cmp.append([])
+                    ok_items = sorted(got) == sorted(want_ids)
                 else:
-                    want_cmp, got_cmp = want_ids, got
-                if want_cmp != got_cmp:
-                    ctx.fail("items", f"{m.name}: yielded {got} expected {want_ids}", payload)
-                srv_all = [x for x in res_["server"] if x["path"].endswith("/" + s["name"])]
-                srv = [x for x in srv_all if x.get("behaviour") != "fail"]
-                if len(srv) != len(live) or len(srv_all) - len(srv) != (0 if fail_at is None else 1):
-                    ctx.fail("call-count", f"{m.name}: {len(srv)} answered (+{len(srv_all) - len(srv)} failed) server calls for {len(live)} pages", payload)
+                    ok_items = got == want_ids
+                if not ok_items:
+                    ctx.fail("items", f"{m.name} (rest): yielded {got} expected {want_ids}", payload)
+                srv = res_["server"]
+                if len(srv) != len(live):
+                    ctx.fail("call-count", f"{m.name} (rest): {len(srv)} server calls for {len(live)} pages", payload)
                 toks = []
-                for k, rec in enumerate(srv_all):
-                    d = codec.decode(m.input.ident.proto, rec["requests"][0]) if rec["requests"] else {}
-                    if rec.get("behaviour") != "fail":
-                        toks.append(d.get("page_token", ""))
-                    rest = {kk: vv for kk, vv in d.items() if kk != "page_token"}
-                    want_rest = {kk: vv for kk, vv in reqd.items() if kk != "page_token"}
-                    if rest != want_rest:
-                        ctx.fail("request-fields-changed", f"{m.name}: request {k} carries {rest}, caller gave {want_rest}", payload)
-                    for key_ in ("x-verif", "x-verif-b"):
-                        if [b for a, b in rec["metadata"] if a == key_] != [b for a, b in METADATA if a == key_]:
-                            ctx.fail("call-options-changed", f"{m.name}: request {k} carries metadata {key_}={[b for a, b in rec['metadata'] if a == key_]}, "
-                                     f"caller gave {[b for a, b in METADATA if a == key_]}", payload)
-                    if not (0 < rec["time_remaining"] <= 7.5):
-                        ctx.fail("call-options-changed", f"{m.name}: request {k} deadline {rec['time_remaining']} (timeout=7)", payload)
+                for k, rec in enumerate(srv):
+                    q = {kk: vv[-1] for kk, vv in urllib.parse.parse_qs(rec["query"], keep_blank_values=True).items()}
+                    toks.append(q.get("pageToken", q.get("page_token", "")))
+                    rest_fields = {kk: vv for kk, vv in q.items() if kk not in ("pageToken", "page_token", "$alt")}
+                    want_rest = {apigen.json_name(kk): vv for kk, vv in reqd.items() if kk != "page_token"}
+                    if rest_fields != want_rest:
+                        ctx.fail("request-fields-changed", f"{m.name} (rest): request {k} carries {rest_fields}, caller gave {want_rest}", payload)
+                    if dict((a.lower(), b) for a, b in rec["headers"]).get("x-verif") != "1":
+                        ctx.fail("call-options-changed", f"{m.name} (rest): request {k} lost caller metadata", payload)
                 want_toks = [reqd.get("page_token", "")] + [p["token"] for p in live[:-1]]
                 if toks != want_toks:
-                    ctx.fail("tokens", f"{m.name}: tokens sent {toks} expected {want_toks}", payload)
-                if ok["attrs"].get("next_page_token") != live[-1]["token"]:
-                    ctx.fail("attrs", f"{m.name}: pager.next_page_token={ok['attrs'].get('next_page_token')!r} after iteration, last page token {live[-1]['token']!r}", payload)
-                last = ok.get("last") or {}
-                if last.get("b64") is not None and codec.decode(m.output.ident.proto, last["b64"]) != codec.normal(m.output.ident.proto, page_json(s, live[-1], "results0", kind)):
-                    ctx.fail("attrs", f"{m.name}: the response the pager exposes after iteration is not the last page fetched", payload)
-                if ok.get("pytype") != m.name + ("AsyncPager" if asy else "Pager"):
-                    ctx.fail("exposure", f"{m.name}: the client returned a {ok.get('pytype')}", payload)
-                # a second listing with the very same argument objects is a listing like the first one
-                ag = res_.get("again")
-                if ag is not None:
-                    ctx.count("program", "second listing with the same request object (" + call["mode"] + ")")
-                    if "ok" not in ag:
-                        ctx.fail("second-listing-raised", f"{m.name}: second listing with the same arguments: {ag.get('raised')}: {ag.get('msg')}", payload)
-                    else:
-                        got2 = [item_id(kind, it, codec) for it in ag["ok"]["items"]]
-                        srv2 = [x for x in ag["server"] if x["path"].endswith("/" + s["name"]) and x.get("behaviour") != "fail"]
-                        toks2 = [(codec.decode(m.input.ident.proto, rec["requests"][0]) if rec["requests"] else {}).get("page_token", "") for rec in srv2]
-                        if sorted(map(str, got2)) != sorted(map(str, got)) or toks2 != toks:
-                            ctx.fail("second-listing-differs", f"{m.name}: listing again with the same request object yielded {got2} (tokens sent {toks2}); "
-                                     f"the first listing yielded {got} (tokens {toks})", payload)
-                # ---- correspondence with the model
-                ctx.traces += 1
-                if kind not in ("enum",):
-                    m_items = mo["items"]
-                    g_items = got if kind not in MAP_KINDS else None
-                    if g_items is not None and m_items != g_items:
-                        ctx.disagree("T3:c07.items", f"model {m_items} vs impl {g_items}", payload)
-                if mo["request_tokens"] != toks:
-                    ctx.disagree("T3:c07.tokens", f"model {mo['request_tokens']} vs impl {toks}", payload)
-        # ---- pagers as objects: programs (small-step model) + exposure
-        check_objects(ctx, codec, svc, obj_calls, stream_calls, obj_out, shapes)
-        # ---- REST: items, call count, tokens and the other request fields, against the statement
-        if rest_out is not None:
-            import urllib.parse
-            if "calls" not in rest_out:
-                ctx.fail("session-failed", f"T3 session failed (rest): {str(rest_out)[-400:]}", {"shapes": shapes})
-            else:
-                for (s, m, kind, hist, reqd, call, fail_at, prog), res_ in zip(plans, rest_out["calls"]):
-                    payload = {"shape": s, "history": hist, "request": reqd, "async": False, "transport": "rest", "mode": call["mode"]}
-                    ctx.count("transport", "rest")
-                    if "ok" not in res_:
-                        ctx.fail("pager-raised", f"{m.name} (rest): {res_.get('raised')}: {res_.get('msg')}", payload)
-                        continue
-                    live = live_pages(hist)
-                    want_ids = [i for p in live for i in p["ids"]]
-                    got = [item_id(kind, it, codec) for it in res_["ok"]["items"]]
-                    if kind == "enum":
-                        ok_items = [enum_name(g) for g in got] == [["RED", "BLUE"][i % 2] for i in want_ids]
-                    elif kind in MAP_KINDS:
-                        ok_items = sorted(got) == sorted(want_ids)
-                    else:
-                        ok_items = got == want_ids
-                    if not ok_items:
-                        ctx.fail("items", f"{m.name} (rest): yielded {got} expected {want_ids}", payload)
-                    srv = res_["server"]
-                    if len(srv) != len(live):
-                        ctx.fail("call-count", f"{m.name} (rest): {len(srv)} server calls for {len(live)} pages", payload)
-                    toks = []
-                    for k, rec in enumerate(srv):
-                        q = {kk: vv[-1] for kk, vv in urllib.parse.parse_qs(rec["query"], keep_blank_values=True).items()}
-                        toks.append(q.get("pageToken", q.get("page_token", "")))
-                        rest_fields = {kk: vv for kk, vv in q.items() if kk not in ("pageToken", "page_token", "$alt")}
-                        want_rest = {apigen.json_name(kk): vv for kk, vv in reqd.items() if kk != "page_token"}
-                        if rest_fields != want_rest:
-                            ctx.fail("request-fields-changed", f"{m.name} (rest): request {k} carries {rest_fields}, caller gave {want_rest}", payload)
-                        if dict((a.lower(), b) for a, b in rec["headers"]).get("x-verif") != "1":
-                            ctx.fail("call-options-changed", f"{m.name} (rest): request {k} lost caller metadata", payload)
-                    want_toks = [reqd.get("page_token", "")] + [p["token"] for p in live[:-1]]
-                    if toks != want_toks:
-                        ctx.fail("tokens", f"{m.name} (rest): tokens sent {toks} expected {want_toks}", payload)
-    finally:
-        genrun.cleanup(root)
+                    ctx.fail("tokens", f"{m.name} (rest): tokens sent {toks} expected {want_toks}", payload)
 
 
 def decode_obs(obs, kind, codec, m):
@@ -590,7 +708,7 @@ def check_objects(ctx, codec, svc, obj_calls, stream_calls, obj_out, shapes):
     models = [next(mres) if x[0] == "program" else None for x in obj_calls]
     for asy, sess in zip((False, True), obj_out):
         if "calls" not in sess:
-            ctx.fail("session-failed", f"T3 object session failed ({'async' if asy else 'sync'}): {str(sess)[-400:]}", {"shapes": shapes})
+            session_failed(ctx, "objects, " + ('async' if asy else 'sync'), sess, shapes)
             continue
         results = sess["calls"]
         for (what, s, m, kind, hist, reqd, prog, c), res_, mo in zip(obj_calls, results, models):
@@ -816,7 +934,8 @@ def stream_shape(r, idx, kind=None):
 def run(ctx):
     ctx.rule = ("request/response shapes around the AIP-4233 rule (present/absent/mistyped/repeated/optional/oneof token and size fields, "
                 "all integer kinds, 1..3 repeated fields of message/nested/scalar/bytes/map/enum/other-file kinds, declaration order != "
-                "number order, response in another file) x scripted histories (1..5 pages, sizes 0..3, extra pages after the empty token) "
+                "number order, response in another file; proto sub-package layouts: services in a sub-package with messages in the API package, "
+                "one service in each, messages/items in a sub-package with items from a third file) x scripted histories (1..5 pages, sizes 0..3, extra pages after the empty token) "
                 "x {sync, asyncio, REST} x call modes (instance, dict, flattened, none) x programs (second listing with the same objects; "
                 "generator programs on one pager: several `pages`/item generators advanced in any interleaving, attribute reads, "
                 "re-iteration; EVERY well-formed program of 4 (thorough: 7) ops on a fixed history; a transient error on a pager-issued fetch under the caller's retry); distinct by (shape), "
@@ -831,25 +950,39 @@ def run(ctx):
     run_api(ctx, r, corpus, "corpus", programs=(LEAN_EXAMPLE_HISTORY, LEAN_EXAMPLE_PROGRAM))
     probe_extended_operation(ctx)
     exhaustive_programs(ctx, ctx.n(4, 7))
+    with open(os.path.join(CORPUS, "map_value_other_file.json")) as fh:      # finding: map pager whose value type lives in another module
+        run_api(ctx, r, json.load(fh)["payload"]["shapes"], "corpus:map-value-other-file")
+    # proto sub-package layouts: one deterministic API per layout (corpus/C07/subpkg_<layout>.json), then a regular share below
+    for lay in LAYOUTS:
+        with open(os.path.join(CORPUS, f"subpkg_{lay}.json")) as fh:
+            run_api(ctx, r, json.load(fh)["payload"]["shapes"], "corpus:" + lay)
     for a in range(ctx.n(3, 150)):
         shapes = [gen_shape(r, i) for i in range(8)]
         shapes[0] = gen_shape(r, 0, conforming=True)
         if r.maybe(0.5):
             shapes.append(stream_shape(r, 8))
-        run_api(ctx, r, shapes, f"api{a}")
+        if r.maybe(0.4):
+            shapes = with_layout(r, shapes, r.pick(LAYOUTS))
+        run_api(ctx, r, avoid_known(shapes), f"api{a}")
 
 
 def search(ctx):
     r = ctx.rng("search")
     for a in range(12):
-        run_api(ctx, r, [gen_shape(r, i) for i in range(8)], f"search{a}")
+        shapes = [gen_shape(r, i) for i in range(8)]
+        if a % 3 == 2:
+            shapes = with_layout(r, shapes, LAYOUTS[(a // 3) % 3])
+        run_api(ctx, r, shapes if a % 2 else avoid_known(shapes), f"search{a}")
 
 
 def replay(ctx, payload):
     import leanio
     ctx.driver = leanio.Driver()
-    s = payload["shape"] if "shape" in payload else payload["shapes"][0]
-    run_api(ctx, ctx.rng("replay"), [s], "replay")
+    if payload.get("whole_api"):
+        run_api(ctx, ctx.rng("replay"), payload["shapes"], "replay")
+    else:
+        s = payload["shape"] if "shape" in payload else payload["shapes"][0]
+        run_api(ctx, ctx.rng("replay"), [s], "replay")
     for f in ctx.failures:
         print("  failure:", f["key"], "-", f["what"])
     return not ctx.failures
